@@ -218,6 +218,9 @@ impl Shared {
     }
 
     fn wait_turn<'a>(&'a self, mut st: std::sync::MutexGuard<'a, St>, me: usize) -> std::sync::MutexGuard<'a, St> {
+        if std::env::var_os("VERIF_SCHED_DEBUG").is_some() {
+            eprintln!("task {} waits; current={} alive={:?}", me, st.current as isize, st.tasks.iter().map(|t| t.alive).collect::<Vec<_>>());
+        }
         while st.current != me {
             st = self.cv.wait(st).unwrap_or_else(|e| e.into_inner());
         }
@@ -241,6 +244,10 @@ impl Shared {
         if st.aborting {
             drop(st);
             std::panic::panic_any(AbortToken);
+        }
+        // Once the writer is gone readers cannot influence each other any more: let each run on.
+        if st.writer_done && me != 0 {
+            return;
         }
         let den = st.dens[me];
         if den <= 1 || st.rng.below(den) == 0 {
